@@ -1004,7 +1004,7 @@ class Processor:
             try:
                 # Try using the ref as a bare Array index
                 idx = int(str_stripped)
-                if len(data) > idx:
+                if -len(data) <= idx < len(data):
                     self.logger.debug(
                         "Processor::_get_nodes_by_key:  FOUND key node as a"
                         " bare Array index at [{}]."
@@ -1111,7 +1111,7 @@ class Processor:
                         str(unstripped_attrs)
                     ) from wrap_ex
 
-                if intmin == intmax and len(data) > intmin:
+                if intmin == intmax and -len(data) <= intmin < len(data):
                     yield NodeCoords(
                         [data[intmin]], data, intmin,
                         translated_path + "[{}]".format(intmin),
@@ -1156,7 +1156,7 @@ class Processor:
                     str(unstripped_attrs)
                 ) from wrap_ex
 
-            if isinstance(data, list) and len(data) > idx:
+            if isinstance(data, list) and -len(data) <= idx < len(data):
                 yield NodeCoords(
                     data[idx], data, idx, translated_path + "[{}]".format(idx),
                     ancestry + [(data, idx)], pathseg)
